@@ -318,3 +318,44 @@ pub fn run_entscan(tier: &str, seed: u64, out: &mut Out) {
         out.case(&["entscan", &named.join("+"), &enc(&t)], &enc(&got));
     }
 }
+
+/// the string-literal scanner of the expression parser: random literal bodies over an alphabet of
+/// escapes, hex digits and quotes (single-quoted, inside a double-quoted attribute)
+pub fn run_wxscan(tier: &str, seed: u64, out: &mut Out) {
+    use glass_easel_template_compiler::parse::expr::Expression;
+    use glass_easel_template_compiler::parse::tag::{ElementKind, Node, Value};
+    let mut rng = Rng::new(seed ^ 0x5ca9);
+    let n = if tier == "thorough" { 150_000 } else { 20_000 };
+    let alphabet: Vec<&str> = vec!["\\", "\\", "\\", "x", "u", "0", "1", "4", "9", "a", "f", "F", "g", "d8", "D800", "dfff", "e000", "n", "r", "t", "b", "v",
+                                   "\\'", "\\\\", "q", " ", "{", "}", "é", "\u{1f600}", "\u{200b}", "\t", "7f"];
+    let fixed = ["\\x41", "\\u0041", "\\uD83D\\uDE00", "\\u{41}", "\\101", "\\x4", "\\u12", "\\x", "\\u", "\\q", "\\0", "\\01", "\\\\", "\\'", "a\\", "\\xg1", "\\ud7ff\\ue000", "\\x7f\\x00"];
+    let mut bodies: Vec<String> = fixed.iter().map(|s| s.to_string()).collect();
+    for _ in 0..n {
+        let k = rng.below(7);
+        let mut s = String::new();
+        for _ in 0..k {
+            s.push_str(*rng.pick(&alphabet));
+        }
+        bodies.push(s);
+    }
+    for b in bodies {
+        let src = format!("<v a=\"{{{{'{}'}}}}\"/>", b);
+        let (tree, _) = glass_easel_template_compiler::parse::parse("p", &src);
+        let got = match tree.content.get(0) {
+            Some(Node::Element(el)) => match &el.kind {
+                ElementKind::Normal { attributes, .. } => match attributes.get(0).and_then(|a| a.value.as_ref()) {
+                    Some(Value::Dynamic { expression, .. }) => match &**expression {
+                        Expression::LitStr { value, .. } => format!("V{}", enc(value)),
+                        _ => "OTHER".to_string(),
+                    },
+                    Some(Value::Static { .. }) => "STATIC".to_string(),
+                    Some(_) => "OTHER".to_string(),
+                    None => "NONE".to_string(),
+                },
+                _ => "NOELEM".to_string(),
+            },
+            _ => "NOELEM".to_string(),
+        };
+        out.case(&["wxscan", &enc(&format!("{}'", b))], &got);
+    }
+}
